@@ -285,11 +285,12 @@ func rdLen(r io.ByteReader) int {
 //@ func (*BufferReader).Range
 //@   requires wfBR(r)
 //@   ensures result == nil || (len(result) == 1 && len(result[0]) == end-start)
+//@   ensures 0 <= start && start <= end && end <= len(r.buf) ==> result != nil
 
 //@ func (*BufferReader).Delegate
 //@   requires wfBR(r)
 //@   modifies r.pos
-//@   ensures wfBR(r) && rdWf(result) && fresh(result.(*BufferReader))
+//@   ensures wfBR(r) && rdWf(result) && typeIs(result, "*BufferReader") && fresh(result.(*BufferReader))
 //@   ensures 0 <= l && l <= len(r.buf)-old(r.pos) ==> r.pos == old(r.pos)+l && rdLen(result) == l && rdPos(result) == 0
 
 //@ func NewBufferReader
@@ -558,15 +559,19 @@ func lemmaReadComponentRoundTrip(r *BufferReader, c Component) (Component, error
 
 //@ func (ParseReader).Range
 //@   requires rdWf(self)
+//@   ensures typeIs(self, "*BufferReader") && 0 <= start && start <= end && end <= rdLen(self) ==> len(result) == 1 && len(result[0]) == end-start
 
 //@ func (ParseReader).Skip
 //@   requires rdWf(self)
 //@   modifies self.(*BufferReader).pos, self.(*WireReader).pos, self.(*WireReader).seg
 //@   ensures rdWf(self) && rdLen(self) == old(rdLen(self))
+//@   ensures typeIs(self, "*BufferReader") && result == nil ==> rdPos(self) == old(rdPos(self))+n
+//@   ensures typeIs(self, "*BufferReader") && result != nil ==> rdPos(self) == old(rdPos(self))
 
 //@ func (ParseReader).Pos
 //@   requires rdWf(self)
 //@   ensures result == rdPos(self)
+//@   ensures typeIs(self, "*BufferReader") ==> 0 <= result && result <= rdLen(self)
 
 //@ func (ParseReader).Length
 //@   requires rdWf(self)
@@ -576,3 +581,12 @@ func lemmaReadComponentRoundTrip(r *BufferReader, c Component) (Component, error
 //@   requires rdWf(self)
 //@   modifies self.(*BufferReader).pos, self.(*WireReader).pos, self.(*WireReader).seg
 //@   ensures rdWf(self) && rdLen(self) == old(rdLen(self)) && rdWf(result) && result != nil
+//@   ensures typeIs(self, "*BufferReader") ==> typeIs(result, "*BufferReader")
+
+// rdWfB: the reader is a well-formed BufferReader (the reader type used on the forwarder's receive path).
+func rdWfB(r io.ByteReader) bool {
+	if br, ok := r.(*BufferReader); ok {
+		return wfBR(br)
+	}
+	return false
+}
